@@ -32,6 +32,7 @@ type Job struct {
 	FSBlock          int
 	FixedClock       bool
 	TimersNeverFire  bool
+	TimerBudget      int // when > 0: timers may fire, but at most this many times per path
 	MapOrderSorted   bool
 	StopAtViolation  bool
 	PanicOK          bool
